@@ -326,6 +326,8 @@ fn restrict_problem(rng: &mut Rng, sp: &mut SProblem) {
 
 fn feature_cfg(rng: &mut Rng, i: usize) -> GenCfg {
     let mut c = GenCfg::random(rng);
+    // shared reload resources are outside the checker model (its resource rule is not modelled): not generated here
+    c.shared_resources = false;
     c.jobs = (4, 11);
     c.compat = false;
     c.values = false;
